@@ -11,7 +11,8 @@ R5 references taken for a set are released on the failing branch (E2)
 from ..ir import load_program, strip_casts, Val
 from ..cfg import cfg_of, CallGraph
 from ..flow import Paths, derived_values
-from .. import nullflow, own, lin
+from .. import nullflow, own, lin, pe
+from ..strpe import StrPE
 
 MAYBE_NULL_OUT = {"json_object_object_get_ex": 2}       # out-parameter may receive JSON null (NULL)
 MAYBE_NULL_RET = {"json_object_get_string", "json_object_array_get_idx", "json_object_object_get"}
@@ -41,6 +42,7 @@ def run(chk):
     r4(chk, prog, m)
     r5(chk, prog, m)
     r6(chk, prog, m)
+    r7(chk, prog, m)
     from . import c12
     mpz = prog.module("json_pointer.c")
     chk.require(mpz is not None, "json_pointer.c not in the build")
@@ -599,3 +601,127 @@ def r6(chk, prog, m):
                     else:
                         chk.refuted(rid, f.name, sig, i.locstr(), "the copied token is used as a member name without being unescaped")
     chk.floor(rid, n, 1, "member-name uses of the recorded key in json_patch.c")
+
+
+# ---------------------------------------------------------------------------
+# R7 the from / path overlap guard of move and copy
+class _OverlapPE(StrPE):
+    def __init__(self, prog, frm, path):
+        super().__init__(prog, max_leaves=50, max_steps=50000)
+        self.frm, self.pth = frm, path
+        self.loop_widen = 1000
+        self.max_visits = 64
+
+    def should_inline(self, g, instr):
+        return False
+
+    def init_mem(self, state, base, path, t):
+        for nm, data in (("fromstr", self.frm), ("pathstr", self.pth)):
+            if base == nm:
+                el, fl = pe.fields_of(path)
+                if not fl and isinstance(el, int) and 0 <= el <= len(data):
+                    b = (data + b"\0")[el]
+                    return pe.C(b if b < 128 else b - 256)
+        return pe.TOP
+
+    def call_model(self, state, frame, i, args):
+        nm = i.callee
+        if nm == "json_object_object_get_ex":
+            if len(args) > 2 and args[2][0] == "ptr":
+                self.store(state, args[2], ("ptr", "jfrom", ()))
+            return pe.C(1)
+        if nm == "json_object_get_string":
+            return ("ptr", "fromstr", ())
+        if nm == "__errno_location":
+            return ("ptr", "errno", ())
+        if nm in ("json_pointer_get_internal", "json_pointer_get"):
+            state.trace.append(("proceed",))
+            return "STOP"
+        r = self.libc_string_model(state, frame, i, args)
+        if r is not None:
+            return r
+        if nm in ("strncmp", "strcmp", "memcmp"):
+            a, b = self._cstr(state, args[0]), self._cstr(state, args[1])
+            if a is None or b is None:
+                return None
+            if nm != "strcmp":
+                if not pe.is_const(args[2]):
+                    return None
+                a, b = a[:args[2][1]], b[:args[2][1]]
+            return pe.C((a > b) - (a < b))
+        return None
+
+    def _call(self, stack, block, i, state, nextidx):
+        r = super()._call(stack, block, i, state, nextidx)
+        if r == [] and state.trace and state.trace[-1] == ("proceed",):
+            self.proceeded = True
+        return r
+
+
+def _tokens(p):
+    return p.split(b"/")[1:] if p else []
+
+
+def r7(chk, prog, m):
+    from itertools import product
+    rid = "C13.R7"
+    chk.rule(rid, "overlap of from and path in move / copy, decided on every pair of pointers of up to 4 characters over '/', 'a', 'b' by "
+                  "partial evaluation of the operation up to the lookup of from: equal locations are a no-op; when from is a proper "
+                  "prefix of path by reference tokens, move is refused and copy does not store the node by reference below itself; in "
+                  "every other case (including names that merely share leading characters, /a and /ab) the operation goes on")
+    f = m.functions.get("json_patch_apply_move_copy")
+    chk.require(f is not None and not f.is_decl, "json_patch_apply_move_copy not found")
+    chk.touched(f)
+    # does copy store the found node itself (by reference)?  then storing it below itself would make the document cyclic
+    P = Paths(f, prog)
+    by_ref = not any(i.op == "call" and i.callee == "json_object_deep_copy" for i in f.instrs())
+    ptrs = [b""]
+    for ln in range(1, 5):
+        for t in product(b"/ab", repeat=ln):
+            s = bytes(t)
+            if s.startswith(b"/"):
+                ptrs.append(s)
+    n = 0
+    bad = {}
+    for move in (1, 0):
+        for frm in ptrs:
+            for pth in ptrs:
+                h = _OverlapPE(prog, frm, pth)
+                h.proceeded = False
+                leaves = h.run(f, [("ptr", "res", ()), ("ptr", "elem", ()), ("ptr", "pathstr", ()), pe.C(move), ("ptr", "perr", ())], pe.State())
+                n += 1
+                outs = set()
+                if h.proceeded:
+                    outs.add("proceed")
+                for lf in leaves:
+                    if lf.kind == "ret" and lf.value is not None and pe.is_const(lf.value):
+                        outs.add("noop" if lf.value[1] == 0 else "refuse")
+                    elif lf.kind != "ret":
+                        outs.add("?")
+                tf, tp = _tokens(frm), _tokens(pth)
+                if frm == pth:
+                    want = {"noop"}
+                    cls = "equal locations"
+                elif len(tf) < len(tp) and tp[:len(tf)] == tf:
+                    cls = "from is a proper prefix of path (%s)" % ("move" if move else "copy")
+                    want = {"refuse"} if (move or by_ref) else {"proceed"}
+                else:
+                    cls = "no overlap by reference tokens (%s)" % ("move" if move else "copy")
+                    want = {"proceed"}
+                if outs != want and cls not in bad:
+                    bad[cls] = (frm, pth, move, outs, want)
+    for cls in ("equal locations", "from is a proper prefix of path (move)", "from is a proper prefix of path (copy)",
+                "no overlap by reference tokens (move)", "no overlap by reference tokens (copy)"):
+        if cls in bad:
+            frm, pth, move, outs, want = bad[cls]
+            chk.refuted(rid, f.name, cls, f.entry.term.locstr(),
+                        "%s from %r to %r: the operation %s, RFC 6902 (with the found node stored %s) requires it to %s"
+                        % ("move" if move else "copy", frm.decode(), pth.decode(), "/".join(sorted(outs)) or "does nothing recognisable",
+                           "by reference" if by_ref else "as a copy", "/".join(sorted(want))),
+                        {"from": frm.decode(), "path": pth.decode(), "move": move})
+        else:
+            chk.proven(rid, f.name, cls, f.entry.term.locstr(), "as required on every pair")
+    if by_ref:
+        chk.note("copy stores the node found at 'from' by reference (known finding F5), so copy into a descendant of 'from' is refused "
+                 "rather than performed; RFC 6902 section 4.5 would allow it with an independent copy")
+    chk.floor(rid, n, 3000, "(from, path, move/copy) evaluations")
